@@ -48,6 +48,8 @@ structure Case where
   reads : Int
   filt : String
   trials : Nat
+  ofail : String
+  rep : Nat
 
 def parseCase (c : String) : Option Case :=
   match words c with
@@ -59,12 +61,12 @@ def parseCase (c : String) : Option Case :=
            limit := kv.nat "limit", first := kv.flag "first", cf := kv.nat "cf",
            mf := kv.int "mf" (-1), mp := kv.int "mp" (-1), se := kv.int "se" (-1), park := kv.int "park" (-1),
            cancel := kv.int "cancel" (-1), reads := kv.int "reads" (-1), filt := kv.str "filt",
-           trials := kv.nat "trials" 1 }
+           trials := kv.nat "trials" 1, ofail := kv.str "ofail", rep := kv.nat "rep" 1 }
 
 /-- Is the case free of injected failures, cancellation and early stops? -/
 def Case.failureFree (c : Case) : Bool :=
   c.limit == 0 && !c.first && c.cf == 0 && c.mf < 0 && c.mp < 0 && c.se < 0 && c.park < 0 && c.cancel < 0 &&
-  c.filt == "" && c.reads < 0
+  c.filt == "" && c.reads < 0 && c.ofail == "" && c.rep ≤ 1
 
 structure Obs where
   kv : KV
